@@ -23,14 +23,16 @@ func (i *kvIndex) Get(key string) interface{} {
 }
 
 func (i *kvIndex) UpdateIndex(oplog ipfslog.Log, _ []ipfslog.Entry) error {
+	// the log is walked with the index locked: an update that walked an older
+	// log must not apply what it read after a later update has been applied
+	i.muIndex.Lock()
+	defer i.muIndex.Unlock()
+
 	entries := oplog.Values().Slice()
 	verifhook.Point("index.update.walked", i, oplog)
 	size := len(entries)
 
 	handled := map[string]struct{}{}
-
-	i.muIndex.Lock()
-	defer i.muIndex.Unlock()
 
 	for idx := range entries {
 		item, err := operation.ParseOperation(entries[size-idx-1])
